@@ -36,6 +36,12 @@ def check(ctx):
     R.compare(ctx, eq, proj_rate, 'C20 logical composition of the native limiter / ulule limiter: delivered items, terminal, store answers',
               nontrivial=lambda c, gd: gd.get('out', '-') not in ('-', 'C'))
 
+    # the carriers of the per-key windows are unicast subjects (GroupBy groups, WindowWhen windows): a value sent while a late
+    # consumer is still being replayed the backlog is delivered AFTER the backlog (per-key order) — kind=nextret, order field
+    nrows = [r for r in R.run_kind(ctx, 'nextret', shards=2) if 'scen=unicast' in r[0] or 'scen=groupby' in r[0]]
+    R.compare(ctx, nrows, lambda d: (flag(d), d.get('order')), 'C20 per-key order through the unicast carriers of the windows (a value sent during the backlog replay does not overtake the backlog)',
+              nontrivial=lambda c, gd: True, recheck=1)
+
     # real time: the Lean acceptor's verdict on what was observed
     pending, hard = [], []
     with_slack = 0
